@@ -202,6 +202,30 @@ def ga_elitism(F, solve, b, pc, L):
             if o[0] == "via" and o[1].path.endswith("::index") and len(o[1].args) > 1 and o[1].args[1][0] != "k":
                 if od.chain_locals(b, o[1].args[1]) & hist_idx and not _escapes(b, pc.bb, c.bb, L):
                     return True, "elitism: the member whose fitness is recorded is cloned into the next generation on every path of the iteration"
+    # the same through a helper: a crate function called on every path of the iteration with the recorded member,
+    # which pushes a clone of that parameter on every path to its return
+    for c in b.calls():
+        if c.bb not in L or c.path not in F.fns or _escapes(b, pc.bb, c.bb, L):
+            continue
+        for ix, a in enumerate(c.args):
+            if a[0] == "k":
+                continue
+            fed = False
+            for o in b.origins(a[1][0], through_calls=thr):
+                if o[0] == "via" and o[1].path.endswith("::index") and len(o[1].args) > 1 and o[1].args[1][0] != "k" and od.chain_locals(b, o[1].args[1]) & hist_idx:
+                    fed = True
+            if not fed:
+                continue
+            hm = F.mir(c.path)
+            if hm is None:
+                continue
+            hb = Body(hm, F.fns[c.path])
+            rets = hb.ret_blocks()
+            for hc in hb.calls():
+                if hc.path.endswith("Vec::<T, A>::push") and len(hc.args) > 1 and hc.args[1][0] != "k" and "Individual" in hb.local_ty(hc.args[0][1][0]):
+                    og = hb.origins(hc.args[1][1][0], through_calls=thr)
+                    if any(o[0] == "arg" and o[1] == ix + 1 for o in og) and rets and all(hb.must_pass(0, rb, {hc.bb}) for rb in rets):
+                        return True, "elitism: %s is called with the recorded member on every path of the iteration and always pushes its clone" % c.path.rsplit("::", 1)[-1]
     return False, "the population is replaced wholesale and the recorded best member is not carried into the next generation on every path: the history can go up"
 
 
